@@ -34,8 +34,10 @@ def make_filter(fx, fy, desc=False, name='flt'):
         r = [int(v) for v in r]
     f = Filter()
     f.name = name
-    f.central_wavelength = 12.0 / (0.5 * (fx[0] + fx[-1])) * u.micron
-    f.nu = nu * u.Hz
+    hv = zlib.crc32(repr((list(fx), list(fy))).encode())
+    # frequencies in Hz, GHz or THz and the central wavelength in micron, nm or cm: the filter is the same filter
+    f.central_wavelength = (12.0 / (0.5 * (fx[0] + fx[-1])) * u.micron).to([u.micron, u.nm, u.cm][(hv // 3) % 3])
+    f.nu = (nu * u.Hz).to([u.Hz, u.GHz, u.THz][(hv // 9) % 3])
     f.response = r
     return f
 
